@@ -31,6 +31,8 @@ THEOREMS = [
     "FaxVerif.C04.or_step",
     "FaxVerif.C04.and_step",
     "FaxVerif.C04.event_first_empty_loud",
+    "FaxVerif.C04.guarded_first_safe",
+    "FaxVerif.C04.guarded_package_correct",
 ]
 RULE = (
     "type-directed random queries that contain at least one of First / and / or / if-else / nested Where (rejection sampling over "
@@ -52,7 +54,10 @@ LEVEL_TEXT = (
     "(where_shields); pure expressions fault exactly when the query does (pure_faults_equal); `a or b`, `a and b` and "
     "`x if c else y` inside expressions, lowered to `r = a; if (!r) {…}` / `r = a; if (r) {…}` / `if (c) {…} else {…}`, run the "
     "second operand's / the other arm's statements — whatever they are, a First() with its throw included — exactly when Python "
-    "evaluates them (or_lazy, and_lazy2, ite_lazy). The real translator is shown to emit the First / fused-Where shapes by C01's "
+    "evaluates them (or_lazy, and_lazy2, ite_lazy; n-ary chains: or_step / and_step). The guard idiom `d if c.Count() == 0 "
+    "else c.First()` is proved safe END TO END for the translator model: it never throws and yields the first kept element "
+    "or the default, from any state, for every chain / event / number model (guarded_first_safe), and the whole package "
+    "writes exactly that one row (guarded_package_correct) — its text is compared with the real translator's on every run. The real translator is shown to emit the First / fused-Where shapes by C01's "
     "text tie, and the lazy-operator shapes by a recogniser (C04/Shapes.lean `countShapes`) run on the implementation's output "
     "for every generated query (at least one recognised shape per and/or/if-else node of the query); the fault behaviour of the "
     "implementation's own output is compared with the query's on generated events (differential)."
@@ -144,8 +149,86 @@ def neg_index_cases(ctx):
     return cases
 
 
+def guarded_tie(ctx, n):
+    """Text tie for C04.guarded_first_safe / guarded_package_correct: the model's package for
+    `ds.Select(e -> {name: d if chain.Count() == 0 else chain.First()})` (Gen.compileGuarded) against the real
+    translator's, modulo a bijective renaming of declared identifiers — on ATLAS and CMS AOD (the proved BackendOK
+    instances), chains ending in double values (for int / float values the translator adds a static_cast<double>
+    in the arm, which the model does not emit; the theorem does not depend on it)."""
+    import gentie
+
+    RANK = {"int": 0, "float": 1, "double": 2}
+
+    def pe_ty(cur, e):  # the type the translator gives the expression (Gen.tyPE)
+        k = e["k"]
+        if k == "int":
+            return "int"
+        if k == "dbl":
+            return "double"
+        if k in ("bool", "cmp", "not"):
+            return "bool"
+        if k == "it":
+            return cur
+        if k == "meth":
+            return e["ty"]
+        if k == "neg":
+            return pe_ty(cur, e["a"])
+        if e["op"] == "/":
+            return "double"
+        a, b = pe_ty(cur, e["a"]), pe_ty(cur, e["b"])
+        return a if RANK.get(a, 0) >= RANK.get(b, 0) else b
+
+    def chain_ty(ch):
+        cur = None
+        for st in ch["steps"]:
+            if st["k"] == "sel":
+                cur = pe_ty(cur, st["e"])
+        return cur
+
+    reqs, meta = [], []
+    for i in range(n):
+        b = ("atlas", "cms_aod")[i % 2]
+        for _ in range(40):
+            ch, cur = gentie.LiteGen(ctx.rng).chain("num")
+            if chain_ty(ch) == "double" and gentie.valid({"k": "eventRows", "cols": [{"name": "c", "k": "first", "c": ch}]}):
+                break
+        else:
+            continue
+        d = ctx.rng.choice([{"k": "int", "v": ctx.rng.choice([0, 1, 5])}, {"k": "dbl", "v": ctx.rng.choice(["1.5", "0.5", "10.0"])}])
+        cq = gentie.chain_q("e", ch)
+        q = {"k": "Select", "s": {"k": "ds"}, "x": "e", "f": {"k": "dict", "ks": ["c0_pt"], "es": [
+            {"k": "if", "c": {"k": "cmp", "op": "==", "a": {"k": "Count", "s": cq}, "b": {"k": "int", "v": 0}}, "a": d, "b": {"k": "First", "s": gentie.chain_q("e", ch)}}]}}
+        r = P.translate_functional(b, qgen.render_functional(q, qgen.metadata(b)))
+        evs = [qgen.gen_event(ctx.rng, b, qgen.banks_used(q), empty_bias=0.4) for _ in range(3)]
+        reqs.append({"op": "guarded", "backend": b, "colls": gentie.colls_json(b), "name": "c0_pt", "chain": ch, "d": d, "events": evs})
+        meta.append((b, q, r))
+    outs = ctx.driver(DRIVER, reqs)
+    for (b, q, r), o in zip(meta, outs):
+        src = qgen.render_functional(q, [])
+        ctx.count("stream:guarded-tie")
+        ctx.case(f"{b}|{src}", True, {"backend": b, "query": src})
+        if "bad" in o:
+            ctx.disagreement("Gen.compileGuarded (driver)", {"backend": b, "source": src}, o, None)
+            continue
+        if not r["ok"]:
+            ctx.violation(key=f"{b}|{src}", what=f"the guard idiom around First() is refused ({r['error']})", case={"backend": b, "source": src}, observed=r)
+            continue
+        dff = gentie.first_diff(gentie.model_canon(o), gentie.impl_canon(r))
+        if dff is None:
+            ctx.count("guarded-tie:text-agree")
+        else:
+            ctx.count("guarded-tie:text-differ")
+            ctx.disagreement("Gen.compileGuarded vs translator (text modulo renaming)", {"backend": b, "source": src, "first_difference": dff}, o.get("body"), r["query"])
+        for ex, de in zip(o["exec"], o["denote"]):
+            ok, why = cgroup.same_outcome(ex, de)
+            if not ok or "fault" in ex:
+                ctx.disagreement("Gen.compileGuarded executed vs denote (model instance: never faults)", {"backend": b, "source": src}, ex, de)
+                break
+
+
 class _C04(CompilerProp):
     def run(self, ctx):
+        guarded_tie(ctx, 40 if ctx.tier == "quick" else 400)
         self.stream(ctx, neg_index_cases(ctx), "negative-index(too short)")
         super().run(ctx)
 
